@@ -425,3 +425,13 @@ Definition t_file : list Z := [1; 2; 3; 4].
 Lemma truncation_witness :
   verify_chunk t_sha t_hash_for (fun _ => []) 0 4 [1; 2] = Some [1; 2].
 Proof. reflexivity. Qed.
+
+(* every step of a plan starts on the 4 KiB grid *)
+Lemma steps_aligned : forall steps cur,
+  cur mod c_cdnMinChunk = 0 -> steps_ok cur steps -> Forall (fun s => fst s mod c_cdnMinChunk = 0) steps.
+Proof.
+  induction steps as [|[o l] t IH]; intros cur Hc H; constructor.
+  - cbn in *. destruct H as (-> & _). exact Hc.
+  - cbn in H. destruct H as (_ & (V1 & V2 & V3) & _ & Hok). apply (IH (cur + l)); [|exact Hok].
+    unfold c_cdnMinChunk in *. rewrite Z.add_mod, Hc, V2 by lia. reflexivity.
+Qed.
